@@ -262,7 +262,7 @@ PROPS = {
     "C12": P("proof", ["ipv6"], trusted_base=TB_CORR),
     "C14": P("proof", ["percent", "cpset"], trusted_base=TB_CORR),
     "C15": P("proof", ["urlenc"], trusted_base=TB_CORR),
-    "C16": P("proof", ["usp"], trusted_base=TB_CORR, coq_files=["Properties_C16.v", "Properties_C16_compare.v"]),
+    "C16": P("proof", ["usp", "usp_pred"], trusted_base=TB_CORR, coq_files=["Properties_C16.v", "Properties_C16_compare.v"]),
     "C17": P("proof", ["filepath"], trusted_base=TB_CORR),
     "C04": {"level": "exploration", "streams": ["runtime:run_c04"], "trusted_base": TB_CORR,
             "stream_names": ["buffer", "alias", "aliasparse", "parse", "setters", "histories", "canparse", "encodings", "ipv4", "ipv6", "percent", "urlenc", "usp", "host", "filepath"]},
